@@ -327,10 +327,20 @@ def check_concrete_inputs(out, facts):
                'IoReader must report an unknown remaining length (Ok(None)); found %s' % sym.vstr(v), f['loc'])
         f = facts.impl_method('Input', 'codec::IoReader<R>', 'read')
         t, v, ev = input_method_term(facts, f)
-        evs = [e for e in events(t) if e[0] != 'CFG']
+        evs = [e for e in events(t) if e[0] not in ('CFG', 'ERR', '?', 'RET')]
         okr = len(evs) == 1 and evs[0][0] == 'MUTCALL' and evs[0][1] == 'read_exact' and sym.vstr(evs[0][3][1]) == 'into'
         sv = strip(v)
-        okr = okr and isinstance(sv, tuple) and sv[0] == 'call' and sv[1] == 'read_exact'
+        # the result of read_exact is returned with only its error converted: either the call value itself (map_err /
+        # `?` keep it), or a match on it that yields Ok(()) for Ok and an error for Err
+        direct = isinstance(sv, tuple) and sv[0] == 'call' and sv[1] == 'read_exact'
+        alts = [x for x in sym.walk(t) if x[0] == 'alt']
+        by_match = False
+        if len(alts) == 1 and isinstance(strip(alts[0][1]), tuple) and strip(alts[0][1])[0] == 'call' and strip(alts[0][1])[1] == 'read_exact':
+            arms = {(d[1] if isinstance(d, tuple) and len(d) > 1 else str(d)): x for d, x in alts[0][2]}
+            ok_arm = [x for k_, x in arms.items() if str(k_).startswith('Ok')]
+            err_arm = [x for k_, x in arms.items() if str(k_).startswith('Err')]
+            by_match = len(ok_arm) == 1 and len(err_arm) == 1 and not events(ok_arm[0]) and sym._ends_err(err_arm[0]) and sym.vstr(v) in ('Ok(())', 'Ok(unit)')
+        okr = okr and (direct or by_match)
         out.ob('R08.4', 'IoReader::read [%s]' % cfg, okr, 'IoReader::read is not `read_exact(into)` with the error mapped: %s -> %s' % (sym.tstr(t), sym.vstr(v)), f['loc'])
     # BytesCursor
     if 'codec::BytesCursor' in impls:
@@ -392,7 +402,10 @@ def check_bytes_cursor(out, facts):
             ok = False
             why.append('copy not dominated by the false edge of `into.len() > len - position`')
         sets = [e for e in p if e[0] == 'SET']
-        if len(sets) != 1 or not is_self_field(sets[0][1], 'position') or sets[0][3] != 'AddAssign' or sym.vstr(sets[0][2]) != 'len(into)':
+        adv = len(sets) == 1 and is_self_field(sets[0][1], 'position') and (
+            (sets[0][3] == 'AddAssign' and sym.vstr(sets[0][2]) == 'len(into)') or
+            (sets[0][3] in (None, 'Assign') and sym.vstr(sets[0][2]) in ('(self.position Add len(into))', '(len(into) Add self.position)')))
+        if not adv:
             ok = False
             why.append('position not advanced by exactly into.len(): %s' % [sym.tstr(s) for s in sets])
         cp = [e for e in p if e[0] == 'MUTCALL' and e[1] == 'copy_from_slice']
